@@ -242,7 +242,7 @@ def known_match(finding, viol):
 
 def _stem(name):
     import re
-    return re.sub(r"@(exit|path)-\d+", "", name)
+    return re.sub(r"@(exit|path)-\d+|@L\d+", "", name)
 
 
 def main(argv=None):
@@ -254,6 +254,8 @@ def main(argv=None):
     ap.add_argument("--verbose", "-v", action="store_true")
     a = ap.parse_args(argv)
     try:
+        if a.replay:
+            return replay(a)
         return run(a)
     except SystemExit:
         raise
@@ -261,6 +263,76 @@ def main(argv=None):
         traceback.print_exc()
         print("CHECKER-ERROR property=%s (exit 3; not a verdict about the code)" % a.prop)
         return 3
+
+
+def replay(a):
+    """bin/check <id> --replay <file>: run the recorded failing case again on /repo's current working tree.
+    exit 1 + VIOLATION line when it fails again, 0 when it no longer does, 2 when the file names a solver verdict without a concrete input."""
+    rec = json.load(open(a.replay))
+    pid = rec.get("property", a.prop)
+    PROPS = load_index()
+    cfg = PROPS[pid]
+    ob_name = rec["obligation"]
+    if ob_name.startswith("bounded:"):
+        bname = ob_name[len("bounded:"):]
+        for sc in cfg["sidecars"]:
+            reg = registry.load_sidecar(os.path.join(ROOT, "contracts", sc))
+            for b in reg.bounded:
+                if b["name"] != bname:
+                    continue
+                os.environ.setdefault("VERIF_SEED", str(rec.get("seed", 0)))
+                cases = list(b["domain"](rec.get("tier", a.tier), int(rec.get("seed", 0))))
+                idx = rec.get("case_index")
+                want = json.dumps(rec.get("inputs"), sort_keys=True, default=str)
+                if idx is None or idx >= len(cases) or json.dumps(concretise.jsonable(cases[idx]), sort_keys=True, default=str) != want:
+                    idx = next((i for i, c in enumerate(cases) if json.dumps(concretise.jsonable(c), sort_keys=True, default=str) == want), None)
+                if idx is None:
+                    print("REPLAY property=%s obligation=%s: the recorded case is not in the stand-in's domain any more" % (pid, ob_name))
+                    return 2
+                nat = native.NativeSpec(reg, b.get("env"))
+                _B[bname] = (b, cases, reg, nat)
+                _, _, _, fails = _bounded_worker((bname, idx, idx + 1))
+                if fails:
+                    r = fails[0][1]
+                    print("VIOLATION property=%s replay=%s obligation=%s" % (pid, a.replay, ob_name))
+                    print("  clause: %s\n  why: %s\n  observed: %s" % (r.get("clause"), r.get("why"), json.dumps(r.get("observed"), default=str)[:600]))
+                    return 1
+                print("REPLAY property=%s obligation=%s: the recorded case passes on this tree" % (pid, ob_name))
+                return 0
+        print("REPLAY: no bounded stand-in named %s under %s" % (bname, pid))
+        return 2
+    # a deductive obligation: regenerate the function's VCs from the working tree and look at that obligation again
+    fn = ob_name.split("/")[0]
+    for sc in cfg["sidecars"]:
+        reg = registry.load_sidecar(os.path.join(ROOT, "contracts", sc))
+        reg.load_exceptions_from_repo(os.path.join(extract.REPO, "rope/base/exceptions.py"))
+        c = reg.contracts.get(fn)
+        if c is None or c.source is None:
+            continue
+        ex = Executor(reg, c)
+        obs = [ob for ob in ex.run() if _stem(ob.name) == _stem(ob_name)]
+        for ob in obs:
+            ob.reg, ob.contract, ob.ex = reg, c, ex
+        solve.discharge(obs, 4)
+        bad = [ob for ob in obs if ob.result["status"] not in ("discharged", "ok")]
+        if not bad:
+            print("REPLAY property=%s obligation=%s: discharged on this tree (%d exits)" % (pid, ob_name, len(obs)))
+            return 0
+        out_dir = os.path.join(OUT, "replays", pid)
+        for ob in bad:
+            v = try_replay(pid, ob, out_dir)
+            if v is not None:
+                print("VIOLATION property=%s replay=%s obligation=%s" % (pid, v["replay"], ob.name))
+                print("  inputs: %s" % json.dumps(v.get("witness"), default=str)[:800])
+                return 1
+        ob = bad[0]
+        print("VIOLATION property=%s replay=%s obligation=%s no-failing-input-found" % (pid, a.replay, ob.name)
+              if ob.result["status"] == "refuted" else
+              "UNDECIDED property=%s obligation=%s: %s" % (pid, ob.name, ob.result["status"]))
+        print("  solver: %s" % json.dumps(ob.result["log"], default=str)[:600])
+        return 1 if ob.result["status"] == "refuted" else 2
+    print("REPLAY: no contract %s under %s" % (fn, pid))
+    return 2
 
 
 def run(a):
@@ -391,7 +463,8 @@ def run(a):
         for n_, (i, case, res) in enumerate(r["fails"]):
             violations.append({"property": pid, "obligation": "bounded:" + b["name"], "replay": None, "witness": concretise.jsonable(case),
                                "clause": res.get("clause"), "observed": res.get("observed"), "why": res.get("why"),
-                               "_file": _safe("%s-%d-%d" % (b["name"], i, n_)) + ".json", "_function": b.get("contract") or b.get("label")})
+                               "_file": _safe("%s-%d-%d" % (b["name"], i, n_)) + ".json", "_function": b.get("contract") or b.get("label"),
+                               "_case_index": i})
 
     # ---- known findings -----------------------------------------------------------------------------
     new_viol, known_hit = [], []
@@ -411,6 +484,7 @@ def run(a):
             if write:
                 os.makedirs(replay_dir, exist_ok=True)
                 json.dump({"property": pid, "obligation": v["obligation"], "function": v.pop("_function", None), "inputs": v["witness"],
+                           "case_index": v.pop("_case_index", None), "tier": tier, "seed": seed,
                            "clause": v.get("clause"), "observed": v.get("observed"), "why": v.get("why"),
                            "known_finding": f.get("what") if f is not None else None}, open(path, "w"), indent=1, default=str)
 
